@@ -208,6 +208,11 @@ class WrapperModel(Model):
                 v = ('ev', 'bklen', self.newid())
                 st.emit('BKLEN', (a,), line, val=v)
                 return [R(st, v)]
+        if f[0] == 'lib' and ln in ('iter', 'list', 'tuple', 'sorted', 'set') and len(args) == 1 and args[0] == CACHE and not kws:
+            v = ('ev', 'keys', self.newid())
+            st.emit('KEYS', (), line, val=v)
+            st.facts.setdefault('keysver', {})[v] = True
+            return [R(st, ('call', f, (v,), ()))]
         # --- methods of the cache
         if f[0] == 'bound' and f[1] == CACHE:
             return self.cache_method(f[2], args, kws, st, line)
@@ -596,6 +601,16 @@ class WrapperModel(Model):
             b.facts[key] = False
             a.emit('ASSUME', (C(key), C(True)), line)
             b.emit('ASSUME', (C(key), C(False)), line)
+            return [(a, True), (b, False)]
+        if is_bk(val, 'deque') or is_bk(val, 'counter'):
+            ne = val in st.facts.get('nonempty', set())
+            if ne:
+                return [(st, True)]
+            a, b = st, st.fork()
+            a.facts.setdefault('nonempty', set()).add(val)
+            a.emit('BKTEST', (val, C(True)), line)
+            b.facts.setdefault('knownempty', set()).add(val)
+            b.emit('BKTEST', (val, C(False)), line)
             return [(a, True), (b, False)]
         # len(cache) compared with a constant: decided by the size fact when possible
         if val[0] == 'cmp' and val[1] in ('>', '>=', '<', '<=') :
